@@ -522,11 +522,11 @@ func (fr *Frame) lookupLocal(name string, pos token.Pos) *ssa.Alloc {
 			_, obj = sc.LookupParent(name, pos)
 		}
 	}
-	var byName []*ssa.Alloc
+	var byName, byPos []*ssa.Alloc
 	for _, l := range fr.fn.Locals {
 		if l.Comment == name {
 			if obj != nil && l.Pos() == obj.Pos() {
-				return l
+				byPos = append(byPos, l)
 			}
 			byName = append(byName, l)
 		}
@@ -535,11 +535,28 @@ func (fr *Frame) lookupLocal(name string, pos token.Pos) *ssa.Alloc {
 		for _, ins := range b.Instrs {
 			if a, ok := ins.(*ssa.Alloc); ok && a.Heap && a.Comment == name {
 				if obj != nil && a.Pos() == obj.Pos() {
-					return a
+					byPos = append(byPos, a)
 				}
 				byName = append(byName, a)
 			}
 		}
+	}
+	if len(byPos) == 1 {
+		return byPos[0]
+	}
+	if len(byPos) > 1 {
+		// the variable of a type switch (switch v := x.(type)) is one object per clause, all
+		// declared at the position of the guard: take the one used inside the clause in scope
+		if sc := obj.Parent(); sc != nil {
+			for _, a := range byPos {
+				for _, u := range *a.Referrers() {
+					if p := u.Pos(); p.IsValid() && sc.Pos() <= p && p < sc.End() {
+						return a
+					}
+				}
+			}
+		}
+		return byPos[0]
 	}
 	if obj != nil {
 		if _, isVar := obj.(*types.Var); isVar && obj.Parent() != nil && obj.Parent() != fr.pkg.Scope() && obj.Parent() != types.Universe {
